@@ -4,6 +4,7 @@ import Mitx.Driver.Parser
 import Mitx.Driver.Grade
 import Mitx.Driver.StringG
 import Mitx.Driver.CallState
+import Mitx.Driver.Depend
 open Lean
 
 def dispatch (op : String) (j : Json) : Except String Json :=
@@ -19,6 +20,8 @@ def dispatch (op : String) (j : Json) : Except String Json :=
   | "parse_hist" => Drv.parseHist j
   | "eval" => Drv.eval j
   | "apply_attempt" => Drv.applyAtt j
+  | "depend" => Drv.depend j
+  | "varlist" => Drv.varList j
   | _ => .error s!"unknown op {op}"
 
 def handle (line : String) : String :=
